@@ -55,6 +55,9 @@ def run(run):
         plans = [('n<=2 all separators', dict(maxmsgs=2, pool=(1, 2, 3, 4), seps=(1, 2, 3, 4, 5), faults=(), modes=VALID_MODES)),
                  ('n<=3 uniform separators', dict(maxmsgs=3, pool=(1, 2, 3, 4) if thorough else (1, 2, 3), seps=(1, 2, 3, 4, 5) if thorough else (1, 2 + r % 4),
                                                  faults=(), modes=VALID_MODES, uniform=True))]
+        # length sweep: 256 (thorough 509) consecutive total lengths, i.e. every value of the low length octet, 16 messages per stream
+        lo = 2 + (seed() % 3) * 85 if not thorough else 2
+        plans.append(('length sweep', dict(maxmsgs=-1, pool=(), seps=(), faults=(), modes=VALID_MODES, sweep=(lo, lo + 255 if not thorough else 510, 16))))
         sample = []
         for label, kw in plans:
             res = stream.tlc_run(wd, 'MC_c11_%d' % len(sample), **kw)
